@@ -401,10 +401,10 @@ def history(rnd, kind):
                 ops.append("('athrow', %s)" % rnd.choice(THROW_SPECS))
             elif c == 9:
                 ops.append("('aclose',)")
-            elif c == 10:
-                ops.append("('asend-throw', %s, %s)" % (rnd.choice(SEND_VALUES), rnd.choice(THROW_SPECS)))
             else:
-                ops.append("('abandon-step', %s)" % rnd.choice(SEND_VALUES))
+                # (abandoning a started asend() awaitable is not generated: what happens then depends on garbage
+                # collection timing and was not reproducible run to run)
+                ops.append("('asend-throw', %s, %s)" % (rnd.choice(SEND_VALUES), rnd.choice(THROW_SPECS)))
         else:
             if c <= 3:
                 ops.append("('next',)")
